@@ -775,19 +775,13 @@ def is_unset(op):
 def oracle_history(case, views, exc, changed):
     if exc is not None:
         return "operation %d of a type-consistent history raised %s" % (len(views) + 1, exc)
-    tagged = None
     for i, view in enumerate(views):
         why = judge_view(case, i, view)
-        if why is None:
-            continue
-        if is_unset(case["ops"][i]) and i > 0 and enc_tree(view, canon=True) == enc_tree(views[i - 1], canon=True):
-            # recorded finding: the slot was reset but nothing re-merged, the previous view is still shown
-            tagged = tagged or "[stale-cache] " + why
-            continue
-        return why
+        if why:
+            return why
     if changed:
         return "the contents of a level changed without a load: the caller's dict given to load_%s was modified" % changed[0]
-    return tagged
+    return None
 
 
 def judge_view(case, i, view):
@@ -811,10 +805,6 @@ def judge_view(case, i, view):
         if set(sections(view)) != secs:
             return "after operation %d: sections are not the union of the levels' sections: %r" % (i + 1, sorted(set(sections(view)) ^ secs)[:3])
     return None
-
-
-def match_known(entry, failure):
-    return entry.get("id") == "C03-unload-stale-cache" and str(failure.get("why", "")).startswith("[stale-cache]")
 
 
 def history_line(case):
@@ -941,8 +931,6 @@ def run(ctx):
                 out.disagree(c, got[:500], m[:500])
         why = oracle_history(c, views, exc, changed)
         if why:
-            if why.startswith("[stale-cache]"):
-                out.hist["history_stale_cache_finding"] += 1
             out.fail(c, why)
     for _ in range(ctx.n(150, 2500)):
         c = gen_program_case(rng)
